@@ -47,7 +47,7 @@ func (c *Correctable) Watch(level int) <-chan struct{} {
 	ch := make(chan struct{})
 	c.mu.Lock()
 	defer c.mu.Unlock()
-	if level <= c.level {
+	if c.done || level <= c.level {
 		close(ch)
 		return ch
 	}
